@@ -332,6 +332,7 @@ static long run_one(int kind, fn_t *f, int v, int n, int depth, long fail_k, boo
     vf_fail_at = fail_k && !all_after ? a0 + fail_k : 0;
     vf_fail_from = fail_k && all_after ? a0 + fail_k : 0;
     vf_cpu_arm_prop("C15", f->name, 5000);       /* a crash/hang inside the call is not a lock-balance verdict */
+    errno = vf_entry_errno_for((uint64_t)vf_cur_case * 0x9E3779B97F4A7C15ULL + (uint64_t)v * 131 + (uint64_t)fail_k * 7 + (uint64_t)depth + VF.seed);   /* an exit path chosen by a stale errno must unlock too */
     const char *vd = f->call(&c, v);
     vf_cpu_disarm();
     vf_fail_at = vf_fail_from = 0;
